@@ -121,6 +121,17 @@ def generate(rng, tier, mult):
         out.append(build(m, s, v, cl, te, req_close=True))
     for m, s, v, cl, te in itertools.product(BODY_METHODS, [200, 204, 301, 304, 403, 417], ["1.0", "1.1"], CLS_SMALL, TES_SMALL):
         out.append(build(m, s, v, cl, te, refused=True))
+    # any route into RecvResponse (lib.recv_context) on a random sample of cells
+    mk = {"get": "GET", "delete": "DELETE", "post": "POST", "despite": "GET", "hop2": "GET", "get-1.0": "GET", "get-close": "GET", "head": "HEAD", "connect": "CONNECT"}
+    for _ in range(1500 if tier == "quick" else 8000):
+        ctx, prefix, info = recv_context(rng, body_allowed=False)
+        m = mk.get(info["kind"], "POST")
+        s_, v, cl, te = rng.choice(BOUNDARY), rng.choice(["1.0", "1.1"]), rng.choice(CLS), rng.choice(TES)
+        cell = build(m, s_, v, cl, te)
+        k = next(i for i, op in enumerate(cell["ops"]) if op.startswith("raw_try_response"))
+        cell["ops"] = ctx + (["raw_try_response %s" % hx(prefix)] if prefix else []) + cell["ops"][k:]
+        cell["meta"]["variant"] = "route " + info["kind"]
+        out.append(cell)
     # the single-call API: Call::try_response decides the same framing; Call::into_body answers "no body" exactly for the no-body cases
     for m, s, v, cl, te in itertools.product(METHODS, [101, 200, 204, 299, 301, 304, 404], ["1.0", "1.1"], CLS_SMALL, TES_SMALL):
         out.append(build_call(m, s, v, cl, te))
@@ -149,7 +160,7 @@ def oracle(script, obs):
         return ["panic in cell %s" % script["meta"]["cell"]]
     idx = [k for k, op in enumerate(ops) if op.startswith("raw_try_response")]
     i = idx[-1]
-    if len(idx) > 1 and not obs[idx[0]].startswith("some "):
+    if len(idx) > 1 and script["meta"].get("interim") and not obs[idx[0]].startswith("some "):
         return ["interim response not returned: %s" % obs[idx[0]][:60]]
     o = obs[i]
     cell = "%s %d HTTP/%s cl=%r te=%r%s" % (m, s, v, cl, te, ("" if script["meta"].get("location", True) or not 300 <= s <= 399 else " (no Location field)") + (" after an interim 1xx on the same flow" if script["meta"].get("interim") else "") + (" [%s]" % script["meta"]["variant"].strip() if script["meta"].get("variant") else ""))
